@@ -458,7 +458,9 @@ template <class T> void ev_bits(T x)
     e.str("inst", tname<T>()).end();
 }
 
-// the same group evaluated by the compiler (is_constant_evaluated() selects the portable fallbacks in etl)
+// the same group evaluated by the compiler (is_constant_evaluated() selects the portable fallbacks in etl).
+// If a function is not a constant expression on one of these in-domain arguments the tables do not compile: the
+// pipeline then rebuilds with -DVH_NO_CE (run-time calls only) and records that fact as a crash event.
 struct BitsCE {
     int popcount, clz, clo, ctz, cto, width;
     bool single;
@@ -816,8 +818,10 @@ int replay8(std::string const& path)
         int const a  = j.at("a").get<int>();
         if (m == "un") {
             if (a == 0) {
+#ifndef VH_NO_CE
                 static constexpr auto ce8 = make_ce8();
                 emit_ce_table(ce8);
+#endif
             }
             unary_all<uint8_t>(uint8_t(a));
             unary_all<int8_t>(int8_t(uint8_t(a)));
@@ -929,8 +933,10 @@ int sweep16(bool thorough, unsigned part, unsigned nparts, uint64_t seed)
     }
     // rotation: a sample of words with every count in [-130, 130]; every bit position; ipow<Base>
     if (part == 0) {
+#ifndef VH_NO_CE
         static constexpr auto ce16 = make_ce_wide<uint16_t>();
         emit_ce_table(ce16);
+#endif
         for (unsigned x : {0x0001u, 0x8000u, 0x8001u, 0x1234u, 0xF0A5u, 0xFFFEu, 0x7FFFu, 0xFFFFu, 0u}) {
             for (int n = -130; n <= 130; ++n) { ev_rot<uint16_t>(uint16_t(x), n); }
             for (unsigned p = 0; p < 16; ++p) {
@@ -1048,8 +1054,10 @@ template <class T> void wide_type(int level, uint64_t seed)
         if (thorough or k % 3 == 1) { binary_all<T>(x, vals[(k * 7 + 3) % vals.size()], false); }
     }
     if constexpr (std::is_unsigned_v<T>) {
+#ifndef VH_NO_CE
         static constexpr auto cew = make_ce_wide<T>();
         emit_ce_table(cew);
+#endif
         if (level > 0) {
             for (T x : {T(1), T(U(1) << (W<T> - 1)), T(0x12345678u), T(U(0) - 2), T(U(0x9ABCDEF0u) * U(0x10001u) + 5u)}) {
                 for (int n = -130; n <= 130; n += (thorough ? 1 : 3)) { ev_rot<T>(x, n); }
